@@ -260,7 +260,10 @@ def pdf(fam, x, **p):
             z = x / a
             zz = np.where(z > 0, z, 1.0)
             zb = zz**b
-            val = d * b / a * zz ** (b - 1) * np.exp(-zb) * np.exp((d - 1) * _log1mexp(zb))
+            # (in log space: the product of a huge power z**(beta-1) and an underflowing (1-exp(-z**beta))**(delta-1) is a
+            #  perfectly ordinary number - 2.3e-128 at x = 4e-285 - that the factor-by-factor product loses to 0)
+            with np.errstate(all="ignore"):
+                val = np.exp(np.log(d * b / a) + (b - 1) * np.log(zz) - zb + (d - 1) * _log1mexp(zb))
             # at x = 0 the formula is singular for beta*delta < 1 (virocon deliberately returns 0 there): not judged
             at0 = np.where(b * d > 1, 0.0, np.nan)
             return np.where(z > 0, val, np.where(z == 0, at0, 0.0))
